@@ -60,10 +60,10 @@ func VerifC08ReadOnly() {
 	if e == "" || c08NotReadOnly[e] {
 		return
 	}
-	x0 := verifStrN("x0", 1, "03")
-	x1 := verifStrN("x1", 1, "03")
-	x2 := verifStrN("x2", 1, "03")
-	x3 := verifStrN("x3", 1, "03")
+	x0 := verifStrN("x0", 1, vDigits())
+	x1 := verifStrN("x1", 1, vDigits())
+	x2 := verifStrN("x2", 1, vDigits())
+	x3 := verifStrN("x3", 1, vDigits())
 	form := verifChoice("form", 2)
 	idx := 0
 	text := ""
@@ -99,4 +99,76 @@ func VerifC08ReadOnly() {
 		verifAssert(res.Len() == 1, "C08/select-passes-input-once "+label)
 	}
 	verifCover("C08/end")
+}
+
+// VerifC08Encoders: the read-only obligation for expressions that run an encoder or a format conversion inside the
+// expression (to_yaml, tostring, @json, string interpolation, unique on containers …) and for traversals of
+// null values, on a document that carries what those code paths are tempted to strip or normalise in place:
+// foot comments on containers, an anchor with an alias and a merge key, a null, custom styles.
+var c08EncExprs = []string{
+	".a | to_yaml", ".b | to_yaml", "to_yaml", ".a | tostring", ".b | tostring", ".a | to_json", ".b | to_json(0)", "to_json", ".a | @json", ".b | @yaml", ".r | to_json", ".m | to_json", ".m | to_yaml", ".m | to_xml", ".r | to_xml", "to_xml",
+	".a | to_csv", "[.a] | to_tsv", ".b | to_xml", ".a | @sh", ".s | @base64", ".s | @uri", ".r | to_yaml", ".r | tostring",
+	"\"x \\(.a) y\"", "\"x \\(.b) y\"", "\"\\(.r)\"", "[.a, .a] | unique", "[.b, .b] | unique", "[.b, .b] | unique_by(.)", "[.b, .r] | unique_by(.c)", "[.a, .a] | group_by(.)", "[.b, .r] | sort_by(.c)",
+	".n[0]", ".n[]", ".n.x", ".n | .[0]", ".n | length", ".n | keys", ".n | to_yaml", ".n | has(0)", ".n[1:]", ".n | .[\"k\"]", ".n | map(.)", ".n | .[]",
+	".r.c", ".r | keys", ".m.c", ".m | keys", ".m | to_entries", "[.r] | flatten", ".r | length", ".m | length", ".m[]", ".r[]", ".m | has(\"c\")",
+	".a | to_yaml | from_yaml", ".b | to_json | from_json", ".s | from_yaml", ".a | @yaml | @yamld", ".b | tojson | fromjson",
+}
+
+// expressions whose evaluation hands the scalars to the yaml.v3 emitter or to a regexp replacement run on concrete
+// scalar values (the emitter is a native library, see DESIGN 2.5); all others run on symbolic digits
+var c08EncConcrete = map[string]bool{".a | to_yaml": true, ".b | to_yaml": true, "to_yaml": true, ".a | tostring": true, ".b | tostring": true, ".b | to_json(0)": true, ".a | @json": true, ".b | @yaml": true, "\"x \\(.a) y\"": true, "\"x \\(.b) y\"": true, "[.a, .a] | unique": true, "[.b, .b] | unique": true, "[.b, .b] | unique_by(.)": true, ".a | to_yaml | from_yaml": true, ".b | to_json | from_json": true, ".a | @yaml | @yamld": true, ".b | tojson | fromjson": true}
+
+func c08EncDoc(symbolic bool) *CandidateNode {
+	x1, x2, x3 := "1", "2", "3"
+	if symbolic {
+		x1, x2, x3 = verifStrN("x1", 1, "09"), verifStrN("x2", 1, "09"), verifStrN("x3", 1, "09")
+	}
+	a := vSeq(vInt(x1), vSeq(vInt(x2)))
+	a.Content[1].Style = yaml.FlowStyle
+	a.Content[1].FootComment = "foot-inner"
+	a.FootComment = "foot-a"
+	b := vMap(vStr("c"), vInt(x3))
+	b.Anchor = "anc"
+	b.FootComment = "foot-b"
+	b.HeadComment = "head-b"
+	s := vStr("str")
+	s.Style = yaml.DoubleQuotedStyle
+	n := vS("!!null", "~")
+	n.LineComment = "line-n"
+	r := &yaml.Node{Kind: yaml.AliasNode, Value: "anc", Alias: b}
+	r.LineComment = "line-r"
+	m := vMap(vS("!!merge", "<<"), &yaml.Node{Kind: yaml.AliasNode, Value: "anc", Alias: b}, vStr("d"), vInt("4"))
+	root := vMap(vStr("a"), a, vStr("b"), b, vStr("s"), s, vStr("n"), n, vStr("r"), r, vStr("m"), m)
+	root.FootComment = "foot-root"
+	return vDoc(root)
+}
+
+func VerifC08Encoders() {
+	which := verifChoice("expr", len(c08EncExprs))
+	if only := verifParam("only", -1); only >= 0 && only != which {
+		return
+	}
+	e := c08EncExprs[which]
+	form := verifChoice("form", 2)
+	text := "(" + e + ") as $x | ."
+	if form == 1 {
+		text = "select([" + e + "] | length >= 0)"
+	}
+	doc := c08EncDoc(!c08EncConcrete[c08EncExprs[which]])
+	exp := vParse(text)
+	before := vDumpFull(doc)
+	res, err := vEval(exp, doc)
+	after := vDumpFull(doc)
+	label := "form=" + []string{"as-var", "select"}[form] + " expr=" + e
+	if err != nil {
+		verifCover("C08/enc/error")
+		verifAssert(verifEqStr(before, after), "C08/input-unchanged-after-error "+label)
+		return
+	}
+	verifObserve("after", after)
+	verifAssert(verifEqStr(before, after), "C08/input-unchanged "+label)
+	for _, r := range vNodes(res) {
+		verifAssert(r == doc, "C08/returns-the-input "+label)
+	}
+	verifCover("C08/enc/end")
 }
